@@ -1,23 +1,38 @@
 import IceModel.Gather
 import IceProofs.GatherAgent
+import IceProofs.GatherPark
 /-!
 Provenance invariant of the composed model: in every reachable state, every started candidate and every
-candidate callback is `unitCand` of a gather unit of `allUnits` (for the agent's configuration and
-interface table) that passed the `publishable` guard; every parked unit is a unit of `allUnits`.
+candidate callback is `unitCand` of a gather unit of `allUnits` that passed the `publishable` guard — for the
+agent's configuration and for an interface table the fake Net HAS HAD (`T :: H`: the current table `T`, the
+earlier ones `H`); a HOST candidate delivered to `OnCandidate` since the last observation is a unit of the
+CURRENT table (host units never wait, so they publish under the table they were computed from); every parked
+unit is a non-host unit of a table the Net has had.
 -/
 namespace IceProofs.GatherProv
-open IceModel.Gather IceProofs.GatherAgent
+open IceModel.Gather IceProofs.GatherAgent IceProofs.GatherPark
 
 def FromUnit (cfg : Config) (ifs : List Iface) (d : CandD) : Prop :=
   ∃ u ∈ allUnits cfg ifs, ∃ ci m, d = unitCand cfg u ci m ∧ publishable cfg d = true
 
-structure Prov (cfg : Config) (ifs : List Iface) (s : MState) : Prop where
+def hostKind (k : UKind) : Bool := k == .hostUdp || k == .hostTcp || k == .hostMux
+
+structure Prov (cfg : Config) (T : List Iface) (H : List (List Iface)) (s : MState) : Prop where
   cfgEq : s.cfg = cfg
-  ifsEq : s.ifs = ifs
-  cands : ∀ c ∈ s.cands, FromUnit cfg ifs c.d
-  evs : ∀ e ∈ s.evs, FromUnit cfg ifs e.1 ∧ e.1.hidden = false
-  jobs : ∀ j ∈ s.jobs, j.unit ∈ allUnits cfg ifs
+  ifsEq : s.ifs = T
+  histEq : s.ifsHist = H
+  cands : ∀ c ∈ s.cands, ∃ T' ∈ T :: H, FromUnit cfg T' c.d
+  evs : ∀ e ∈ s.evs, (∃ T' ∈ T :: H, FromUnit cfg T' e.1) ∧ (e.1.ty = .host → FromUnit cfg T e.1) ∧ e.1.hidden = false
+  jobs : ∀ j ∈ s.jobs, hostKind j.unit.kind = false ∧ ∃ T' ∈ T :: H, j.unit ∈ allUnits cfg T'
   held : s.heldCycles ≠ [] → cfg.candTypes.contains .host = true
+
+theorem unitCand_ty_host {cfg : Config} {u : GUnit} {ci m : Nat} (h : (unitCand cfg u ci m).ty = .host) :
+    hostKind u.kind = true := by
+  obtain ⟨kind, net, bind, url, n, mapped, ifc⟩ := u
+  cases kind <;> simp_all [unitCand, hostKind]
+
+theorem hostKind_cases {k : UKind} (h : hostKind k = true) : k = .hostUdp ∨ k = .hostTcp ∨ k = .hostMux := by
+  cases k <;> simp_all [hostKind]
 
 theorem take_unit (j : Job) (i : Nat) (to : SlotSt) : (j.take i to).1.unit = j.unit ∧ (j.take i to).1.m = j.m := by
   unfold Job.take; split <;> exact ⟨rfl, rfl⟩
@@ -39,59 +54,67 @@ theorem takeAll_unit (j : Job) (is : List Nat) (to : SlotSt) :
       exact ⟨this.1.trans ht.1, this.2.trans ht.2⟩
   exact key is (j, [])
 
-/-- `exec` keeps the provenance invariant when the unit being run is one of `allUnits` -/
-theorem exec_prov (cfg : Config) (ifs : List Iface) (p : Prog) : ∀ (s : MState) (j : Job),
-    Prov cfg ifs s → j.unit ∈ allUnits cfg ifs →
-    Prov cfg ifs (exec s j p).1 ∧ (exec s j p).2.unit = j.unit := by
+/-- `exec` keeps the provenance invariant when the unit being run is a unit of a table `T'` the Net has had —
+the current one for a host unit -/
+theorem exec_prov (cfg : Config) (T : List Iface) (H : List (List Iface)) (T' : List Iface) (hT' : T' ∈ T :: H)
+    (p : Prog) : ∀ (s : MState) (j : Job),
+    Prov cfg T H s → j.unit ∈ allUnits cfg T' → (hostKind j.unit.kind = true → T' = T) →
+    Prov cfg T H (exec s j p).1 ∧ (exec s j p).2.unit = j.unit := by
   induction p with
-  | ret => intro s j h _; exact ⟨h, rfl⟩
+  | ret => intro s j h _ _; exact ⟨h, rfl⟩
   | acquire l k a b iha ihb =>
-    intro s j h hu
+    intro s j h hu hk
     simp only [exec]
     split
     · exact ⟨h, rfl⟩
-    · exact ihb _ _ h hu
-    · exact iha _ _ ⟨h.cfgEq, h.ifsEq, h.cands, h.evs, h.jobs, h.held⟩ hu
+    · exact ihb _ _ h hu hk
+    · exact iha _ _ ⟨h.cfgEq, h.ifsEq, h.histEq, h.cands, h.evs, h.jobs, h.held⟩ hu hk
   | step l a b iha ihb =>
-    intro s j h hu
+    intro s j h hu hk
     simp only [exec]
     split
     · exact ⟨h, rfl⟩
-    · exact iha _ _ h hu
-    · exact ihb _ _ h hu
+    · exact iha _ _ h hu hk
+    · exact ihb _ _ h hu hk
   | release i n ih =>
-    intro s j h hu
+    intro s j h hu hk
     simp only [exec]
     have := ih { s with closes := s.closes + (j.take i .released).2.length } (j.take i .released).1
-      ⟨h.cfgEq, h.ifsEq, h.cands, h.evs, h.jobs, h.held⟩ (by rw [(take_unit j i .released).1]; exact hu)
+      ⟨h.cfgEq, h.ifsEq, h.histEq, h.cands, h.evs, h.jobs, h.held⟩ (by rw [(take_unit j i .released).1]; exact hu)
+      (by rw [(take_unit j i .released).1]; exact hk)
     exact ⟨this.1, this.2.trans (take_unit j i .released).1⟩
   | addCand ci is st fl ihs ihf =>
-    intro s j h hu
+    intro s j h hu hk
     simp only [exec]
     split
-    · exact ihf _ _ h hu
+    · exact ihf _ _ h hu hk
     · rename_i hguard
       have hpub : publishable s.cfg (unitCand s.cfg j.unit ci j.m) = true := by
         simp only [Bool.or_eq_true, Bool.not_eq_true', not_or, Bool.not_eq_false] at hguard
         exact hguard.2
       split
       · have := ihs { s with closes := s.closes + (j.takeAll is .dupClosed).2.length } (j.takeAll is .dupClosed).1
-          ⟨h.cfgEq, h.ifsEq, h.cands, h.evs, h.jobs, h.held⟩ (by rw [(takeAll_unit j is .dupClosed).1]; exact hu)
+          ⟨h.cfgEq, h.ifsEq, h.histEq, h.cands, h.evs, h.jobs, h.held⟩ (by rw [(takeAll_unit j is .dupClosed).1]; exact hu)
+          (by rw [(takeAll_unit j is .dupClosed).1]; exact hk)
         exact ⟨this.1, this.2.trans (takeAll_unit j is .dupClosed).1⟩
-      · have hfrom : FromUnit cfg ifs (unitCand s.cfg j.unit ci j.m) := by
+      · have hfrom : FromUnit cfg T' (unitCand s.cfg j.unit ci j.m) := by
           rw [h.cfgEq] at hpub ⊢
           exact ⟨j.unit, hu, ci, j.m, rfl, hpub⟩
+        have hfromT : (unitCand s.cfg j.unit ci j.m).ty = .host → FromUnit cfg T (unitCand s.cfg j.unit ci j.m) := by
+          intro hty
+          have := hk (unitCand_ty_host hty)
+          rw [← this]; exact hfrom
         have := ihs
           { s with cands := s.cands ++ [{ d := unitCand s.cfg j.unit ci j.m, gen := s.cyc.gen, res := (j.takeAll is (.owned ci)).2 }],
                    evs := if (unitCand s.cfg j.unit ci j.m).hidden then s.evs
                           else s.evs ++ [(unitCand s.cfg j.unit ci j.m, s.cyc.gen)] }
           (j.takeAll is (.owned ci)).1
-          ⟨h.cfgEq, h.ifsEq,
+          ⟨h.cfgEq, h.ifsEq, h.histEq,
            (by intro c hc
                simp only [List.mem_append, List.mem_singleton] at hc
                rcases hc with hc | hc
                · exact h.cands c hc
-               · subst hc; exact hfrom),
+               · subst hc; exact ⟨T', hT', hfrom⟩),
            (by intro e he
                split at he
                · exact h.evs e he
@@ -99,30 +122,43 @@ theorem exec_prov (cfg : Config) (ifs : List Iface) (p : Prog) : ∀ (s : MState
                  simp only [List.mem_append, List.mem_singleton] at he
                  rcases he with he | he
                  · exact h.evs e he
-                 · subst he; exact ⟨hfrom, by simpa using hhid⟩),
+                 · subst he; exact ⟨⟨T', hT', hfrom⟩, hfromT, by simpa using hhid⟩),
            h.jobs, h.held⟩
           (by rw [(takeAll_unit j is (.owned ci)).1]; exact hu)
+          (by rw [(takeAll_unit j is (.owned ci)).1]; exact hk)
         exact ⟨this.1, this.2.trans (takeAll_unit j is (.owned ci)).1⟩
 
-theorem settle_prov {cfg : Config} {ifs : List Iface} {s : MState} {j : Job} (h : Prov cfg ifs s)
-    (hu : j.unit ∈ allUnits cfg ifs) : Prov cfg ifs (settle (s, j)) := by
+theorem settle_prov {cfg : Config} {T : List Iface} {H : List (List Iface)} {s : MState} {j : Job} (h : Prov cfg T H s)
+    (T' : List Iface) (hT' : T' ∈ T :: H) (hu : j.unit ∈ allUnits cfg T')
+    (hpark : j.prog ≠ .ret → hostKind j.unit.kind = false) : Prov cfg T H (settle (s, j)) := by
   unfold settle
   split
   · exact h
-  · refine ⟨h.cfgEq, h.ifsEq, h.cands, h.evs, ?_, h.held⟩
+  · rename_i hne
+    refine ⟨h.cfgEq, h.ifsEq, h.histEq, h.cands, h.evs, ?_, h.held⟩
     intro x hx
     simp only [List.mem_append, List.mem_singleton] at hx
     rcases hx with hx | hx
     · exact h.jobs x hx
-    · exact hx ▸ hu
+    · subst hx
+      exact ⟨hpark (by intro hr; exact hne hr), T', hT', hu⟩
 
-theorem startUnit_prov {cfg : Config} {ifs : List Iface} {s : MState} (h : Prov cfg ifs s) (c gen : Nat) (u : GUnit)
-    (hu : u ∈ allUnits cfg ifs) : Prov cfg ifs (startUnit s c gen u) := by
+theorem startUnit_prov {cfg : Config} {T : List Iface} {H : List (List Iface)} {s : MState} (h : Prov cfg T H s)
+    (c gen : Nat) (u : GUnit) (hu : u ∈ allUnits cfg T) : Prov cfg T H (startUnit s c gen u) := by
   unfold startUnit
-  have := exec_prov cfg ifs (progOf u) s
+  have := exec_prov cfg T H T (by simp) (progOf u) s
     { cyc := c, gen := gen, unit := u, prog := progOf u,
-      deadline := s.now + (if u.kind == .relay then turnTimeoutMs else stunTimeoutMs) } h hu
-  exact settle_prov this.1 (by rw [this.2]; exact hu)
+      deadline := s.now + (if u.kind == .relay then turnTimeoutMs else stunTimeoutMs) } h hu (fun _ => rfl)
+  refine settle_prov this.1 T (by simp) (by rw [this.2]; exact hu) ?_
+  intro hne
+  rw [this.2]
+  simp only
+  cases hk : hostKind u.kind with
+  | false => rfl
+  | true =>
+    exfalso
+    apply hne
+    exact exec_parkFree (progOf u) _ _ (host_parkFree u (hostKind_cases hk))
 
 theorem foldl_mem {α : Type} (P : MState → Prop) (f : MState → α → MState) :
     ∀ (l : List α) (s : MState), (∀ a ∈ l, ∀ s, P s → P (f s a)) → P s → P (l.foldl f s) := by
@@ -133,8 +169,9 @@ theorem foldl_mem {α : Type} (P : MState → Prop) (f : MState → α → MStat
     intro s hf h
     exact ih _ (fun b hb => hf b (by simp [hb])) (hf a (by simp) s h)
 
-theorem runHostMux_prov {cfg : Config} {ifs : List Iface} (c gen : Nat) : ∀ (us : List GUnit) (seen : List CandD)
-    {s : MState}, (∀ u ∈ us, u ∈ allUnits cfg ifs) → Prov cfg ifs s → Prov cfg ifs (runHostMux s c gen us seen) := by
+theorem runHostMux_prov {cfg : Config} {T : List Iface} {H : List (List Iface)} (c gen : Nat) :
+    ∀ (us : List GUnit) (seen : List CandD) {s : MState}, (∀ u ∈ us, u ∈ allUnits cfg T) → Prov cfg T H s →
+      Prov cfg T H (runHostMux s c gen us seen) := by
   intro us
   induction us with
   | nil => intro seen s _ h; simpa [runHostMux] using h
@@ -151,51 +188,58 @@ theorem host_units_mem {cfg : Config} {ifs : List Iface} (hh : cfg.candTypes.con
   · exact Or.inl (Or.inl (Or.inl hu))
   · exact Or.inl (Or.inl (Or.inr hu))
 
-theorem runHost_prov {cfg : Config} {ifs : List Iface} {s : MState} (h : Prov cfg ifs s)
-    (hh : cfg.candTypes.contains .host = true) (c gen : Nat) : Prov cfg ifs (runHost s c gen) := by
+theorem runHost_prov {cfg : Config} {T : List Iface} {H : List (List Iface)} {s : MState} (h : Prov cfg T H s)
+    (hh : cfg.candTypes.contains .host = true) (c gen : Nat) : Prov cfg T H (runHost s c gen) := by
   unfold runHost
-  have hm := host_units_mem (ifs := ifs) hh
-  have h1 : Prov cfg ifs (runHostMux s c gen (hostMuxUnits s.cfg) []) := by
+  have hm := host_units_mem (ifs := T) hh
+  have h1 : Prov cfg T H (runHostMux s c gen (hostMuxUnits s.cfg) []) := by
     apply runHostMux_prov c gen _ _ _ h
     rw [h.cfgEq]; exact hm.1
   have hcfg : (runHostMux s c gen (hostMuxUnits s.cfg) []).cfg = cfg := h1.cfgEq
-  have hifs : (runHostMux s c gen (hostMuxUnits s.cfg) []).ifs = ifs := h1.ifsEq
+  have hifs : (runHostMux s c gen (hostMuxUnits s.cfg) []).ifs = T := h1.ifsEq
   simp only [hcfg, hifs]
-  exact foldl_mem (Prov cfg ifs) _ _ _ (fun u hu s hs => startUnit_prov hs c gen u (hm.2 u hu)) h1
+  exact foldl_mem (Prov cfg T H) _ _ _ (fun u hu s hs => startUnit_prov hs c gen u (hm.2 u hu)) h1
 
-theorem runCycleUnits_prov {cfg : Config} {ifs : List Iface} {s : MState} (h : Prov cfg ifs s) (c gen : Nat) :
-    Prov cfg ifs (runCycleUnits s c gen) := by
+theorem runCycleUnits_prov {cfg : Config} {T : List Iface} {H : List (List Iface)} {s : MState} (h : Prov cfg T H s)
+    (c gen : Nat) : Prov cfg T H (runCycleUnits s c gen) := by
   unfold runCycleUnits
   rw [h.cfgEq]
-  apply foldl_mem (Prov cfg ifs) _ _ _ _ h
+  apply foldl_mem (Prov cfg T H) _ _ _ _ h
   intro t ht s hs
   have htc : cfg.candTypes.contains t = true := List.contains_iff_mem.2 ht
   cases t with
   | host =>
     simp only
     split
-    · exact ⟨hs.cfgEq, hs.ifsEq, hs.cands, hs.evs, hs.jobs, fun _ => htc⟩
+    · exact ⟨hs.cfgEq, hs.ifsEq, hs.histEq, hs.cands, hs.evs, hs.jobs, fun _ => htc⟩
     · exact runHost_prov hs htc c gen
   | srflx =>
     simp only [hs.cfgEq, hs.ifsEq]
-    apply foldl_mem (Prov cfg ifs) _ _ _ _ hs
+    apply foldl_mem (Prov cfg T H) _ _ _ _ hs
     intro u hu s' hs'
     exact startUnit_prov hs' c gen u (by
       simp only [allUnits, htc, ↓reduceIte, List.mem_append]; exact Or.inl (Or.inr hu))
   | relay =>
     simp only [hs.cfgEq, hs.ifsEq]
-    apply foldl_mem (Prov cfg ifs) _ _ _ _ hs
+    apply foldl_mem (Prov cfg T H) _ _ _ _ hs
     intro u hu s' hs'
     exact startUnit_prov hs' c gen u (by
       simp only [allUnits, htc, ↓reduceIte, List.mem_append]; exact Or.inr hu)
 
-theorem prov_of_same {cfg : Config} {ifs : List Iface} {s s' : MState} (h : Prov cfg ifs s) (h1 : s'.cfg = s.cfg)
-    (h2 : s'.ifs = s.ifs) (h3 : s'.cands = s.cands) (h4 : s'.evs = s.evs) (h5 : s'.jobs = s.jobs)
-    (h6 : s'.heldCycles = s.heldCycles) : Prov cfg ifs s' :=
-  ⟨h1.trans h.cfgEq, h2.trans h.ifsEq, by rw [h3]; exact h.cands, by rw [h4]; exact h.evs,
+theorem prov_of_same {cfg : Config} {T : List Iface} {H : List (List Iface)} {s s' : MState} (h : Prov cfg T H s)
+    (h1 : s'.cfg = s.cfg) (h2 : s'.ifs = s.ifs) (h7 : s'.ifsHist = s.ifsHist) (h3 : s'.cands = s.cands)
+    (h4 : s'.evs = s.evs) (h5 : s'.jobs = s.jobs) (h6 : s'.heldCycles = s.heldCycles) : Prov cfg T H s' :=
+  ⟨h1.trans h.cfgEq, h2.trans h.ifsEq, h7.trans h.histEq, by rw [h3]; exact h.cands, by rw [h4]; exact h.evs,
    by rw [h5]; exact h.jobs, by rw [h6]; exact h.held⟩
 
-theorem finishCycle_prov {cfg : Config} {ifs : List Iface} {s : MState} (h : Prov cfg ifs s) : Prov cfg ifs (finishCycle s) := by
+theorem startMonitorIf_prov {cfg : Config} {T : List Iface} {H : List (List Iface)} {s : MState} (h : Prov cfg T H s)
+    (b : Bool) (c : Nat) : Prov cfg T H (startMonitorIf b s c) := by
+  unfold startMonitorIf; split
+  · exact prov_of_same h rfl rfl rfl rfl rfl rfl rfl
+  · exact h
+
+theorem finishCycle_prov {cfg : Config} {T : List Iface} {H : List (List Iface)} {s : MState} (h : Prov cfg T H s) :
+    Prov cfg T H (finishCycle s) := by
   unfold finishCycle
   split
   · exact h
@@ -203,13 +247,61 @@ theorem finishCycle_prov {cfg : Config} {ifs : List Iface} {s : MState} (h : Pro
     · exact h
     · split
       · exact h
-      · exact prov_of_same h rfl rfl rfl rfl rfl rfl
+      · apply startMonitorIf_prov
+        exact prov_of_same h rfl rfl rfl rfl rfl rfl rfl
 
-theorem resume_prov {cfg : Config} {ifs : List Iface} {s : MState} (h : Prov cfg ifs s) (pick : Job → Option (Ans × Nat)) :
-    Prov cfg ifs (resume s pick) := by
+theorem recordKnown_prov {cfg : Config} {T : List Iface} {H : List (List Iface)} {s : MState} (h : Prov cfg T H s) :
+    Prov cfg T H (recordKnown s) := by
+  unfold recordKnown; split
+  · exact prov_of_same h rfl rfl rfl rfl rfl rfl rfl
+  · exact h
+
+theorem monPass_prov {cfg : Config} {T : List Iface} {H : List (List Iface)} {s : MState} (h : Prov cfg T H s)
+    (m : Mon) (c gen : Nat) : Prov cfg T H (monPass s m c gen) := by
+  unfold monPass
+  have hd : Prov cfg T H (detect s).1 := prov_of_same h rfl rfl rfl rfl rfl rfl rfl
+  split
+  · exact prov_of_same (runCycleUnits_prov hd c gen) rfl rfl rfl rfl rfl rfl rfl
+  · exact hd
+
+theorem monTick_prov {cfg : Config} {T : List Iface} {H : List (List Iface)} {s : MState} (h : Prov cfg T H s)
+    (m : Mon) : Prov cfg T H (monTick s m) := by
+  unfold monTick
+  split
+  · apply monPass_prov
+    exact prov_of_same h rfl rfl rfl rfl rfl rfl rfl
+  · exact prov_of_same h rfl rfl rfl rfl rfl rfl rfl
+
+theorem monKick_prov {cfg : Config} {T : List Iface} {H : List (List Iface)} {s : MState} (h : Prov cfg T H s) :
+    Prov cfg T H (monKick s) := by
+  unfold monKick
+  split
+  · exact h
+  · split
+    · exact h
+    · split
+      · apply monTick_prov
+        exact prov_of_same h rfl rfl rfl rfl rfl rfl rfl
+      · exact prov_of_same h rfl rfl rfl rfl rfl rfl rfl
+
+theorem tickDue_prov {cfg : Config} {T : List Iface} {H : List (List Iface)} {s : MState} (h : Prov cfg T H s) :
+    Prov cfg T H (tickDue s) := by
+  unfold tickDue
+  split
+  · exact h
+  · split
+    · exact h
+    · split
+      · exact prov_of_same h rfl rfl rfl rfl rfl rfl rfl
+      · apply monTick_prov
+        exact prov_of_same h rfl rfl rfl rfl rfl rfl rfl
+
+theorem resume_prov {cfg : Config} {T : List Iface} {H : List (List Iface)} {s : MState} (h : Prov cfg T H s)
+    (pick : Job → Option (Ans × Nat)) : Prov cfg T H (resume s pick) := by
   unfold resume
-  have key : ∀ (todo : List Job) (s0 : MState), Prov cfg ifs s0 → (∀ j ∈ todo, j.unit ∈ allUnits cfg ifs) →
-      Prov cfg ifs (todo.foldl (fun s j =>
+  have key : ∀ (todo : List Job) (s0 : MState), Prov cfg T H s0 →
+      (∀ j ∈ todo, hostKind j.unit.kind = false ∧ ∃ T' ∈ T :: H, j.unit ∈ allUnits cfg T') →
+      Prov cfg T H (todo.foldl (fun s j =>
         match pick j with
         | none => s
         | some (a, m) => settle (exec s { j with answer := some a, m := m } j.prog)) s0) := by
@@ -225,78 +317,130 @@ theorem resume_prov {cfg : Config} {ifs : List Iface} {s : MState} (h : Prov cfg
       | some am =>
         obtain ⟨a, m⟩ := am
         simp only
-        have := exec_prov cfg ifs j.prog s0 { j with answer := some a, m := m } h0 (ht j (by simp))
-        exact settle_prov this.1 (by rw [this.2]; exact ht j (by simp))
+        obtain ⟨hnk, T', hT', hu⟩ := ht j (by simp)
+        have := exec_prov cfg T H T' hT' j.prog s0 { j with answer := some a, m := m } h0 hu
+          (by intro hk; simp only at hk; rw [hnk] at hk; exact absurd hk (by simp))
+        exact settle_prov this.1 T' hT' (by rw [this.2]; exact hu) (by intro _; rw [this.2]; exact hnk)
   refine key _ _ ?_ ?_
-  · exact ⟨h.cfgEq, h.ifsEq, h.cands, h.evs, fun j hj => h.jobs j (List.mem_filter.1 hj).1, h.held⟩
+  · exact ⟨h.cfgEq, h.ifsEq, h.histEq, h.cands, h.evs, fun j hj => h.jobs j (List.mem_filter.1 hj).1, h.held⟩
   · intro j hj; exact h.jobs j (List.mem_filter.1 hj).1
 
-theorem dropCands_prov {cfg : Config} {ifs : List Iface} {s : MState} (h : Prov cfg ifs s) : Prov cfg ifs (dropCands s) :=
-  ⟨h.cfgEq, h.ifsEq, by intro c hc; simp [dropCands] at hc, h.evs, h.jobs, h.held⟩
+theorem dropCands_prov {cfg : Config} {T : List Iface} {H : List (List Iface)} {s : MState} (h : Prov cfg T H s) :
+    Prov cfg T H (dropCands s) :=
+  ⟨h.cfgEq, h.ifsEq, h.histEq, by intro c hc; simp [dropCands] at hc, h.evs, h.jobs, h.held⟩
 
-theorem expire_prov {cfg : Config} {ifs : List Iface} {s : MState} (h : Prov cfg ifs s) : Prov cfg ifs (expire s) :=
-  finishCycle_prov (resume_prov h _)
+theorem expire_prov {cfg : Config} {T : List Iface} {H : List (List Iface)} {s : MState} (h : Prov cfg T H s) :
+    Prov cfg T H (expire s) :=
+  monKick_prov (finishCycle_prov (resume_prov h _))
 
-theorem openGate_prov {cfg : Config} {ifs : List Iface} {s : MState} (h : Prov cfg ifs s) : Prov cfg ifs (openGate s) := by
+theorem atTime_prov {cfg : Config} {T : List Iface} {H : List (List Iface)} {s : MState} (h : Prov cfg T H s) (t : Nat) :
+    Prov cfg T H (atTime s t) :=
+  tickDue_prov (expire_prov (prov_of_same h rfl rfl rfl rfl rfl rfl rfl))
+
+theorem advLoop_prov {cfg : Config} {T : List Iface} {H : List (List Iface)} : ∀ (fuel : Nat) {s : MState},
+    Prov cfg T H s → ∀ target, Prov cfg T H (advLoop fuel s target) := by
+  intro fuel
+  induction fuel with
+  | zero => intro s h _; exact h
+  | succ n ih =>
+    intro s h target
+    simp only [advLoop]
+    split
+    · exact h
+    · exact ih (atTime_prov h _) target
+
+theorem advTo_prov {cfg : Config} {T : List Iface} {H : List (List Iface)} {s : MState} (h : Prov cfg T H s) (t : Nat) :
+    Prov cfg T H (advTo s t) := by
+  unfold advTo; split
+  · exact atTime_prov (advLoop_prov _ h _) _
+  · exact expire_prov (prov_of_same h rfl rfl rfl rfl rfl rfl rfl)
+
+theorem openGate_prov {cfg : Config} {T : List Iface} {H : List (List Iface)} {s : MState} (h : Prov cfg T H s) :
+    Prov cfg T H (openGate s) := by
   unfold openGate
+  apply monKick_prov
   apply finishCycle_prov
   by_cases hh : s.heldCycles = []
   · simp only [hh, List.foldl_nil]
-    exact ⟨h.cfgEq, h.ifsEq, h.cands, h.evs, h.jobs, fun hne => absurd rfl hne⟩
+    exact ⟨h.cfgEq, h.ifsEq, h.histEq, h.cands, h.evs, h.jobs, fun hne => absurd rfl hne⟩
   · have hhost := h.held hh
-    refine foldl_mem (Prov cfg ifs) _ _ _ ?_ ?_
+    refine foldl_mem (Prov cfg T H) _ _ _ ?_ ?_
     · intro c _ s' hs'; exact runHost_prov hs' hhost _ _
-    · exact ⟨h.cfgEq, h.ifsEq, h.cands, h.evs, h.jobs, fun hne => absurd rfl hne⟩
+    · exact ⟨h.cfgEq, h.ifsEq, h.histEq, h.cands, h.evs, h.jobs, fun hne => absurd rfl hne⟩
 
-theorem closeAgent_prov {cfg : Config} {ifs : List Iface} {s : MState} (h : Prov cfg ifs s) : Prov cfg ifs (closeAgent s) := by
+theorem closeWait_prov {cfg : Config} {T : List Iface} {H : List (List Iface)} {s : MState} (h : Prov cfg T H s) (dl : Nat) :
+    Prov cfg T H (closeWait s dl) := by
+  unfold closeWait; split
+  · exact prov_of_same h rfl rfl rfl rfl rfl rfl rfl
+  · exact h
+
+theorem closeAgent_prov {cfg : Config} {T : List Iface} {H : List (List Iface)} {s : MState} (h : Prov cfg T H s) :
+    Prov cfg T H (closeAgent s) := by
   unfold closeAgent
   apply dropCands_prov
   apply resume_prov
-  have h1 := openGate_prov h
-  have h2 : Prov cfg ifs { openGate s with cyc := (Cycle.step false (openGate s).cyc .close).1 } :=
-    prov_of_same h1 rfl rfl rfl rfl rfl rfl
-  have h3 := resume_prov h2 (fun j => if isStunJob j &&
-      (((openGate s).cyc.cycles[j.cyc]?).map (fun c => !c.cancelled)).getD false then some (.fail, 0) else none)
-  split
-  · exact prov_of_same h3 rfl rfl rfl rfl rfl rfl
-  · exact h3
+  apply closeWait_prov
+  apply resume_prov
+  exact prov_of_same (openGate_prov h) rfl rfl rfl rfl rfl rfl rfl
 
-theorem applyFailed_prov {cfg : Config} {ifs : List Iface} {s : MState} (h : Prov cfg ifs s) (n : Nat) :
-    Prov cfg ifs (applyFailed s n) := by
+theorem applyFailed_prov {cfg : Config} {T : List Iface} {H : List (List Iface)} {s : MState} (h : Prov cfg T H s) (n : Nat) :
+    Prov cfg T H (applyFailed s n) := by
   unfold applyFailed
   split
-  · exact prov_of_same (dropCands_prov h) rfl rfl rfl rfl rfl rfl
+  · exact prov_of_same (dropCands_prov h) rfl rfl rfl rfl rfl rfl rfl
   · exact h
 
-theorem acceptGather_prov {cfg : Config} {ifs : List Iface} {s : MState} (h : Prov cfg ifs s) :
-    Prov cfg ifs (acceptGather s).1 := by
+theorem acceptGather_prov {cfg : Config} {T : List Iface} {H : List (List Iface)} {s : MState} (h : Prov cfg T H s) :
+    Prov cfg T H (acceptGather s).1 := by
   simp only [acceptGather]
   split
-  · exact prov_of_same h rfl rfl rfl rfl rfl rfl
+  · exact prov_of_same h rfl rfl rfl rfl rfl rfl rfl
   · exact h
   · exact h
 
-theorem startCycle_prov {cfg : Config} {ifs : List Iface} {s : MState} (h : Prov cfg ifs s) (cg : Option (Nat × Nat)) :
-    Prov cfg ifs (startCycle s cg) := by
+theorem startCycle_prov {cfg : Config} {T : List Iface} {H : List (List Iface)} {s : MState} (h : Prov cfg T H s)
+    (cg : Option (Nat × Nat)) : Prov cfg T H (startCycle s cg) := by
   simp only [startCycle]
   split
   · exact h
   · split
-    · exact prov_of_same h rfl rfl rfl rfl rfl rfl
-    · refine finishCycle_prov (runCycleUnits_prov ?_ _ _)
-      exact prov_of_same h rfl rfl rfl rfl rfl rfl
+    · exact prov_of_same h rfl rfl rfl rfl rfl rfl rfl
+    · refine finishCycle_prov (runCycleUnits_prov (recordKnown_prov ?_) _ _)
+      exact prov_of_same h rfl rfl rfl rfl rfl rfl rfl
 
-theorem restartOp_prov {cfg : Config} {ifs : List Iface} {s : MState} (h : Prov cfg ifs s) :
-    Prov cfg ifs (restartOp s).1 := by
+theorem restartOp_prov {cfg : Config} {T : List Iface} {H : List (List Iface)} {s : MState} (h : Prov cfg T H s) :
+    Prov cfg T H (restartOp s).1 := by
   simp only [restartOp]
   split
   · refine resume_prov (dropCands_prov ?_) _
-    exact prov_of_same h rfl rfl rfl rfl rfl rfl
+    exact prov_of_same h rfl rfl rfl rfl rfl rfl rfl
   · exact h
 
-theorem step_prov {cfg : Config} {ifs : List Iface} {s : MState} (h : Prov cfg ifs s) (op : Op) :
-    Prov cfg ifs (step s op).1 := by
+/-- the invariant for the state's own current table and history -/
+def ProvS (cfg : Config) (s : MState) : Prop := Prov cfg s.ifs s.ifsHist s
+
+theorem provS_of {cfg : Config} {T : List Iface} {H : List (List Iface)} {s : MState} (h : Prov cfg T H s) : ProvS cfg s := by
+  unfold ProvS; rw [h.ifsEq, h.histEq]; exact h
+
+/-- a new interface table: everything published or parked so far stays attributed to a table the Net has had -/
+theorem ifaces_prov {cfg : Config} {s : MState} (h : ProvS cfg s) (t : List Iface) :
+    ProvS cfg { s with ifs := t, ifsHist := s.ifs :: s.ifsHist, evs := [], nilOp := 0 } := by
+  unfold ProvS at h ⊢
+  refine ⟨h.cfgEq, rfl, rfl, ?_, by intro e he; simp at he, ?_, h.held⟩
+  · intro c hc
+    obtain ⟨T', hT', hf⟩ := h.cands c hc
+    exact ⟨T', List.mem_cons_of_mem _ hT', hf⟩
+  · intro j hj
+    obtain ⟨hk, T', hT', hu⟩ := h.jobs j hj
+    exact ⟨hk, T', List.mem_cons_of_mem _ hT', hu⟩
+
+/-- every operation but `ifaces` keeps the invariant for the SAME current table and history -/
+theorem step_prov_keep {cfg : Config} {s : MState} (h : ProvS cfg s) (op : Op) (hop : ∀ t, op ≠ .ifaces t) :
+    Prov cfg s.ifs s.ifsHist (step s op).1 := by
+  unfold ProvS at h
   cases op with
+  | ifaces t => exact absurd rfl (hop t)
+  | hold => exact prov_of_same h rfl rfl rfl rfl rfl rfl rfl
   | gather2 =>
     simp only [step]
     exact startCycle_prov (startCycle_prov (acceptGather_prov (acceptGather_prov h)) _) _
@@ -306,51 +450,92 @@ theorem step_prov {cfg : Config} {ifs : List Iface} {s : MState} (h : Prov cfg i
   | gather =>
     simp only [step]
     split
-    · refine finishCycle_prov (runCycleUnits_prov ?_ _ _)
-      exact prov_of_same h rfl rfl rfl rfl rfl rfl
+    · refine finishCycle_prov (runCycleUnits_prov (recordKnown_prov ?_) _ _)
+      exact prov_of_same h rfl rfl rfl rfl rfl rfl rfl
     · exact h
     · exact h
   | restart =>
     simp only [step]
     split
     · refine resume_prov (dropCands_prov ?_) _
-      exact prov_of_same h rfl rfl rfl rfl rfl rfl
+      exact prov_of_same h rfl rfl rfl rfl rfl rfl rfl
     · exact h
   | close => exact closeAgent_prov h
   | fail t n =>
     simp only [step]
     split
     · exact h
-    · refine applyFailed_prov (expire_prov ?_) n
-      exact prov_of_same h rfl rfl rfl rfl rfl rfl
+    · exact applyFailed_prov (advTo_prov h _) n
   | release => exact openGate_prov h
-  | adv ms =>
-    refine expire_prov ?_
-    exact prov_of_same h rfl rfl rfl rfl rfl rfl
+  | adv ms => exact advTo_prov h _
   | stunreply k m =>
     simp only [step]
     split
     · exact h
-    · exact finishCycle_prov (resume_prov h _)
+    · exact monKick_prov (finishCycle_prov (resume_prov h _))
   | turnreply k ok m =>
     simp only [step]
     split
     · exact h
-    · exact finishCycle_prov (resume_prov h _)
+    · exact monKick_prov (finishCycle_prov (resume_prov h _))
 
-theorem prov_init (cfg : Config) (ifs : List Iface) (s : MState) (h : newAgent cfg ifs = .ok s) : Prov cfg ifs s := by
+theorem step_prov {cfg : Config} {s : MState} (h : ProvS cfg s) (op : Op) : ProvS cfg (step s op).1 := by
+  by_cases hop : ∃ t, op = .ifaces t
+  · obtain ⟨t, rfl⟩ := hop
+    exact ifaces_prov h t
+  · exact provS_of (step_prov_keep h op (fun t ht => hop ⟨t, ht⟩))
+
+/-- the tables of the state after an operation: an `ifaces` operation pushes its table, every other one leaves
+them alone -/
+theorem step_tabs {cfg : Config} {s : MState} (h : ProvS cfg s) (op : Op) :
+    (step s op).1.ifs :: (step s op).1.ifsHist
+      = (match op with | .ifaces t => [t] | _ => []) ++ (s.ifs :: s.ifsHist) := by
+  by_cases hop : ∃ t, op = .ifaces t
+  · obtain ⟨t, rfl⟩ := hop
+    rfl
+  · have hk := step_prov_keep h op (fun t ht => hop ⟨t, ht⟩)
+    rw [hk.ifsEq, hk.histEq]
+    cases op <;> first | rfl | exact absurd ⟨_, rfl⟩ hop
+
+theorem prov_init (cfg : Config) (ifs : List Iface) (s : MState) (h : newAgent cfg ifs = .ok s) : ProvS cfg s := by
   rw [newAgent_ok h]
-  exact ⟨rfl, rfl, by intro c hc; simp at hc, by intro e he; simp at he, by intro j hj; simp at hj,
+  exact ⟨rfl, rfl, rfl, by intro c hc; simp at hc, by intro e he; simp at he, by intro j hj; simp at hj,
     by intro hne; simp at hne⟩
 
-theorem flush_prov {cfg : Config} {ifs : List Iface} {s : MState} (h : Prov cfg ifs s) : Prov cfg ifs s.flush :=
-  ⟨h.cfgEq, h.ifsEq, h.cands, by intro e he; simp [MState.flush] at he, h.jobs, h.held⟩
+theorem flush_prov {cfg : Config} {s : MState} (h : ProvS cfg s) : ProvS cfg s.flush :=
+  ⟨h.cfgEq, rfl, rfl, h.cands, by intro e he; simp [MState.flush] at he, h.jobs, h.held⟩
 
-theorem runOps_prov {cfg : Config} {ifs : List Iface} : ∀ (ops : List Op) {s : MState}, Prov cfg ifs s →
-    Prov cfg ifs (runOps s ops) := by
+theorem runOps_prov {cfg : Config} : ∀ (ops : List Op) {s : MState}, ProvS cfg s → ProvS cfg (runOps s ops) := by
   intro ops
   induction ops with
   | nil => intro s h; exact h
   | cons op ops ih => intro s h; exact ih (flush_prov (step_prov h op))
+
+/-! ### the interface tables a run has had are the initial one and those of its `ifaces` operations -/
+
+def opTables : List Op → List (List Iface)
+  | [] => []
+  | .ifaces t :: ops => t :: opTables ops
+  | _ :: ops => opTables ops
+
+theorem runOps_tabs {cfg : Config} : ∀ (ops : List Op) {s : MState}, ProvS cfg s →
+    ∀ T ∈ (runOps s ops).ifs :: (runOps s ops).ifsHist, T ∈ s.ifs :: s.ifsHist ∨ T ∈ opTables ops := by
+  intro ops
+  induction ops with
+  | nil => intro s _ T hT; exact Or.inl hT
+  | cons op ops ih =>
+    intro s h T hT
+    have h1 := flush_prov (step_prov h op)
+    rcases ih h1 T hT with hT' | hT'
+    · have hst := step_tabs h op
+      have hT'' : T ∈ (step s op).1.ifs :: (step s op).1.ifsHist := hT'
+      rw [hst] at hT''
+      cases op <;> simp_all [opTables]
+      rcases hT'' with h | h | h
+      · exact Or.inr (Or.inl h)
+      · exact Or.inl (Or.inl h)
+      · exact Or.inl (Or.inr h)
+    · right
+      cases op <;> simp_all [opTables]
 
 end IceProofs.GatherProv
